@@ -1,0 +1,17 @@
+//go:build verif
+
+package rtptime
+
+// Contracts checked by /verif/govc (see /verif/DESIGN.md). Comment-only file.
+
+//@ func (d *globalDecoderTrackData) decode
+//@   mode bv
+//@   ensures[C15] ret == old(d.overall) + int64(int32(ts - old(d.prev)))
+//@   ensures[C15] d.prev == ts && d.overall == ret
+//@   ensures[C15] int32(uint32(ret) - uint32(old(d.overall))) == int32(ts - old(d.prev))
+//@   modifies d.overall, d.prev
+
+//@ func multiplyAndDivide
+//@   requires d > 0 && m >= 0 && v >= 0
+//@   ensures[C15] ret*d <= v*m && v*m < (ret+1)*d
+//@   modifies nothing
